@@ -36,6 +36,11 @@ pub enum SOp {
     /// expansion with and/or/negate: dense functions give decision nodes with many elements, which
     /// operations over literals and a few dozen connectives never reach
     Dense([u64; 4]),
+    /// compile_cnf / compile_logical_expr / compile_plan of a small input over the builder's variables (variable
+    /// bytes are scaled to the vtree's leaves): further routes by which diagrams enter a builder
+    Cnf(Vec<Vec<(u8, bool)>>),
+    Expr(crate::exprgen::Ex),
+    Plan(crate::exprgen::Pl),
 }
 
 impl SOp {
@@ -56,6 +61,9 @@ impl SOp {
             SOp::AndDisjoint(..) | SOp::AndDisjointNeg(..) => "and",
             SOp::OrDisjoint(..) | SOp::OrDisjointNeg(..) => "or",
             SOp::Dense(..) => "dense",
+            SOp::Cnf(..) => "compile_cnf",
+            SOp::Expr(..) => "compile_logical_expr",
+            SOp::Plan(..) => "compile_plan",
         }
     }
 }
@@ -89,6 +97,11 @@ pub fn sop_strategy_ext(with_ite_family: bool, with_rebuild: bool, with_dense: b
     }
     if with_dense {
         v.push((2, any::<[u64; 4]>().prop_map(SOp::Dense).boxed()));
+    }
+    v.push((1, proptest::collection::vec(proptest::collection::vec((any::<u8>(), any::<bool>()), 1..=4), 1..=4).prop_map(SOp::Cnf).boxed()));
+    if with_ite_family {
+        v.push((1, crate::exprgen::ex_strategy(8, 3).prop_map(SOp::Expr).boxed()));
+        v.push((1, crate::exprgen::pl_strategy(8, 3).prop_map(SOp::Plan).boxed()));
     }
     proptest::strategy::Union::new_weighted(v).boxed()
 }
@@ -218,6 +231,23 @@ impl<'a, B: SddBuilder<'a>> SddRun<'a, B> {
                     (b.or(px, py), tx.or(ty), vec![x, y])
                 }
             }
+            SOp::Cnf(cl) => {
+                let mapped: Vec<Vec<(usize, bool)>> = cl.iter().map(|c| c.iter().map(|(v, p)| (self.v(*v), *p)).collect()).collect();
+                let lits: Vec<Vec<rsdd::repr::Literal>> =
+                    mapped.iter().map(|c| c.iter().map(|(v, p)| rsdd::repr::Literal::new(VarLabel::new_usize(*v), *p)).collect()).collect();
+                let cnf = rsdd::repr::Cnf::new(&lits);
+                let t = mapped.iter().fold(Tt::TRUE, |acc, c| acc.and(c.iter().fold(Tt::FALSE, |a, (v, p)| a.or(Tt::lit(*v, *p)))));
+                (b.compile_cnf(&cnf), t, vec![])
+            }
+            SOp::Expr(e) => {
+                let labels = self.labels.clone();
+                let e2 = crate::textgen::rename(e, &|v| labels[v % labels.len()]);
+                (b.compile_logical_expr(&e2.to_logical()), e2.tt(), vec![])
+            }
+            SOp::Plan(pl) => {
+                let pl2 = rename_plan_labels(pl, &self.labels);
+                (b.compile_plan(&pl2.to_plan()), pl2.tt(), vec![])
+            }
             SOp::Dense(bits) => {
                 let mut t = Tt(*bits);
                 for v in 0..crate::tt::NV {
@@ -308,4 +338,19 @@ pub fn vtree_relation(info: &ShapeInfo, a: usize, b: usize) -> usize {
 
 pub fn neg_is_involution(p: SddPtr) -> bool {
     p.neg().neg() == p
+}
+
+fn rename_plan_labels(p: &crate::exprgen::Pl, labels: &[usize]) -> crate::exprgen::Pl {
+    use crate::exprgen::Pl;
+    let r = |x: &Pl| Box::new(rename_plan_labels(x, labels));
+    match p {
+        Pl::Lit(v, pol) => Pl::Lit(labels[*v as usize % labels.len()] as u8, *pol),
+        Pl::True => Pl::True,
+        Pl::False => Pl::False,
+        Pl::Not(a) => Pl::Not(r(a)),
+        Pl::And(a, b) => Pl::And(r(a), r(b)),
+        Pl::Or(a, b) => Pl::Or(r(a), r(b)),
+        Pl::Iff(a, b) => Pl::Iff(r(a), r(b)),
+        Pl::Ite(a, b, c) => Pl::Ite(r(a), r(b), r(c)),
+    }
 }
